@@ -11,6 +11,7 @@ import (
 	"sort"
 	"strings"
 	"time"
+	"unsafe"
 
 	"github.com/fufuok/cache"
 	"github.com/fufuok/cache/internal/vshim"
@@ -683,7 +684,101 @@ func (p *program) header() string {
 
 // ---- one exploration -----------------------------------------------------------------------------------------
 
+// protocol-level trace (M4a correspondence): classified events in execution order
+type tracer struct {
+	table, resizing, mu, growths, shrinks unsafe.Pointer
+	evs                                   []string
+	tid                                   func() int
+	spin                                  bool // Map: the bucket lock is bit 0 of the word; MapOf uses a mutex
+	lastCtr                               map[int]bool
+	unlocking                             bool
+}
+
+func (tr *tracer) note(kind string, addr unsafe.Pointer, arg uint64) {
+	tok := ""
+	switch kind {
+	case "LoadPointer":
+		if addr == tr.table {
+			tok = "LdTable"
+		}
+	case "StorePointer":
+		if addr == tr.table {
+			tok = "StTable"
+		} else {
+			tok = "SlotStore"
+		}
+	case "StoreUint64":
+		// word / meta store by the lock holder (the unlocking store of Map's spin lock is announced separately)
+		if !tr.unlocking {
+			tok = "SlotStore"
+		}
+		tr.unlocking = false
+	case "LoadInt64":
+		if addr == tr.resizing {
+			tok = "LdResizing"
+		} else {
+			// a counter stripe: sumSize() reads them in a row; one token per sum
+			if tr.lastCtr == nil {
+				tr.lastCtr = map[int]bool{}
+			}
+			if !tr.lastCtr[tr.tid()] {
+				tr.lastCtr[tr.tid()] = true
+				tr.evs = append(tr.evs, fmt.Sprintf("ev %d SumSize", tr.tid()))
+			}
+			return
+		}
+	case "StoreInt64":
+		if addr == tr.resizing {
+			tok = "StResizing"
+		}
+	case "CASInt64":
+		if addr == tr.resizing {
+			if arg == 1 {
+				tok = "Cas ok"
+			} else {
+				tok = "Cas fail"
+			}
+		}
+	case "AddInt64":
+		if addr != tr.growths && addr != tr.shrinks {
+			tok = fmt.Sprintf("AddSize %d", int64(arg))
+		}
+	case "SpinLock":
+		if tr.spin {
+			tok = "Lock"
+		}
+	case "SpinUnlock":
+		if tr.spin {
+			tok = "Unlock"
+			tr.unlocking = true // the StoreUint64 note that follows is this very store
+		}
+	case "MutexLock":
+		if addr == tr.mu {
+			tok = "MuLock"
+		} else {
+			tok = "Lock"
+		}
+	case "MutexUnlock":
+		if addr == tr.mu {
+			tok = "MuUnlock"
+		} else {
+			tok = "Unlock"
+		}
+	case "CondPark":
+		tok = "CondPark"
+	case "Broadcast":
+		tok = "Broadcast"
+	}
+	if tr.lastCtr != nil {
+		tr.lastCtr[tr.tid()] = false
+	}
+	if tok != "" {
+		tr.evs = append(tr.evs, fmt.Sprintf("ev %d %s", tr.tid(), tok))
+	}
+}
+
 type outcome struct {
+	protoTrace []string
 	prog     *program
 	strategy int
 	schedSd  uint64
@@ -704,8 +799,20 @@ func explore(p *program, strategy int, schedSeed uint64, budget int, keepTrace b
 	vshim.SetClock(p.now)
 	tg := newTarget(p.kind, p.small, p.dflt, p.cb)
 	out := &outcome{prog: p, strategy: strategy, schedSd: schedSeed}
+	var tr *tracer
+	curTid := 9 // prefill runs as pseudo-thread 9
+	if keepTrace && !tg.isCache() {
+		tr = &tracer{tid: func() int { return curTid }, spin: p.kind == "map"}
+		tr.table, tr.resizing, tr.mu = tg.m.VerifAddrs()
+		tr.growths, tr.shrinks = tg.m.VerifGrowthAddrs()
+		vshim.Trace = tr.note
+		defer func() { vshim.Trace = nil }()
+	}
 	// prefill, unscheduled
 	for _, l := range p.prefill {
+		if tr != nil && !strings.HasPrefix(l, "tick") {
+			tr.evs = append(tr.evs, "ev 9 Start "+l)
+		}
 		f := strings.Fields(l)
 		if f[0] == "tick" {
 			vshim.Advance(atoi64(f[1]))
@@ -718,12 +825,23 @@ func explore(p *program, strategy int, schedSeed uint64, budget int, keepTrace b
 		} else {
 			r, _, _ = tg.mapOp(f)
 		}
+		if tr != nil {
+			tr.evs = append(tr.evs, "ev 9 Ret "+r)
+		}
 		out.preRes = append(out.preRes, r)
 	}
 	if tg.isCache() {
 		tg.c.cbs = nil
 	}
-	s := &sched{r: newRng(schedSeed), keepTr: keepTrace}
+	s := &sched{r: newRng(schedSeed), keepTr: false}
+	if tr != nil {
+		tr.tid = func() int {
+			if s.cur != nil {
+				return s.cur.id
+			}
+			return 9
+		}
+	}
 	curOpDone := map[int]*bool{}
 	for i, ops := range p.threads {
 		i, ops := i, ops
@@ -736,7 +854,13 @@ func explore(p *program, strategy int, schedSeed uint64, budget int, keepTrace b
 				if tg.isCache() {
 					before = len(tg.c.cbs)
 				}
+				if tr != nil {
+					tr.evs = append(tr.evs, fmt.Sprintf("ev %d Start %s", i, l))
+				}
 				rec := tg.opExec(s, t, l)
+				if tr != nil {
+					tr.evs = append(tr.evs, fmt.Sprintf("ev %d Ret %s", i, rec.res))
+				}
 				if tg.isCache() {
 					// callbacks fired while this call ran on this thread (only one thread runs at a time, and a
 					// callback runs on the thread of the call that fires it) -- attribute by interval
@@ -805,6 +929,9 @@ func explore(p *program, strategy int, schedSeed uint64, budget int, keepTrace b
 	out.hist = s.hist
 	out.steps = s.steps
 	out.trace = s.trace
+	if tr != nil {
+		out.protoTrace = tr.evs
+	}
 	if tg.isCache() {
 		out.cbLedger = append([]string(nil), tg.c.cbs...)
 	}
@@ -1163,6 +1290,10 @@ func schedMode(a map[string]string) {
 	focus := argStr(a, "focus", "")
 	outdir := argStr(a, "out", ".")
 	budget := argInt(a, "budget", 6000)
+	wantTrace := argInt(a, "trace", 0) == 1
+	tf, _ := os.Create(outdir + "/trace.txt")
+	tw := bufio.NewWriter(tf)
+	defer func() { tw.Flush(); tf.Close() }()
 	hf, _ := os.Create(outdir + "/hist.txt")
 	bf, _ := os.Create(outdir + "/monitors.txt")
 	hw, bw := bufio.NewWriter(hf), bufio.NewWriter(bf)
@@ -1179,9 +1310,16 @@ func schedMode(a map[string]string) {
 			if focus == "reader" {
 				freeze = r.intn(150)
 			}
-			o := explore(prog, strategy, ss, budget, false, freeze)
+			o := explore(prog, strategy, ss, budget, wantTrace, freeze)
 			id++
 			o.write(hw, id)
+			if wantTrace && o.protoTrace != nil && o.problem == "" {
+				fmt.Fprintf(tw, "trace %d %s\n", id, prog.header())
+				for _, e := range o.protoTrace {
+					fmt.Fprintln(tw, e)
+				}
+				fmt.Fprintln(tw, "end")
+			}
 			nSwitch += o.steps
 			for _, b := range o.monitors() {
 				fmt.Fprintf(bw, "%d %s\n", id, b)
